@@ -46,7 +46,7 @@ F = Fraction
 GEN_D = 6          # degrees 0..GEN_D of the real clmo / encode tables are embedded in Gen/C06.lean (924 slots)
 TABLE_DEG = 30
 PROP_MODS = ["HitenModel.Props.C06"]
-SRC_MODS = ["HitenModel.Props.C06", "HitenModel.Lemmas.C06", "HitenModel.Lemmas.C06Poly", "HitenModel.Lemmas.C06Subst", "HitenModel.Core.C06",
+SRC_MODS = ["HitenModel.Props.C06", "HitenModel.Lemmas.C06", "HitenModel.Lemmas.C06Poly", "HitenModel.Lemmas.C06Subst", "HitenModel.Lemmas.C06Deg", "HitenModel.Core.C06",
             "HitenModel.Gen.C06"]
 
 # ----------------------------------------------------------------------------------------------------------------
@@ -500,7 +500,7 @@ def run_driver(ctx, text):
     t = time.time()
     out = ctx.lean_run("Drivers/C06.lean", "\n".join(text) + "\n", timeout=3000)
     tags = ("decall", "psi", "clmo", "enc", "tables", "pack", "encode", "decode", "add", "scale", "mul", "diff", "integ", "poisson",
-            "eval", "gvar", "gadd", "gmul", "gpow", "gpoisson", "gdiff", "ginteg", "geval", "sublin", "subaff", "bad-op")
+            "eval", "gvar", "gadd", "gmul", "gpow", "gpoisson", "gdiff", "ginteg", "geval", "sublin", "subaff", "gjac", "gdeg", "bad-op")
     res = [l.rstrip() for l in out if l.split(" ", 1)[0] in tags]
     ctx.log("driver: %d ops in %.1fs" % (len(text), time.time() - t))
     return res
@@ -864,10 +864,23 @@ def graded_cases(ctx, R, lay, batch):
             ctx.violation("differentiate:exact", "_polynomial_differentiate is not the partial derivative", dict(rec, observed=g_txt(r)))
         if ci % 4 == 0:
             jac = O._polynomial_jacobian(R.glist(P), md, psi, clmo, enc)
+            batch.add("gjac %d %s | %s" % (md, rng.choice(sgs), g_txt(P)), "gjac " + " @ ".join(g_txt(blocks_of(jac[v])) for v in range(6)),
+                      {"op": "gjac", "max_deg": md, "p": g_txt(P)})
+            ctx.case(("gjac", md, rec["p"]), kind="jacobian")
             for v in range(6):
                 if lay.g_to_dict(blocks_of(jac[v])) != p_diff(lay.g_to_dict(P), v):
                     ctx.violation("jacobian:exact", "_polynomial_jacobian[%d] is not dP/dx_%d" % (v, v),
                                   {"op": "jacobian", "max_deg": md, "p": g_txt(P), "var": v})
+        # degree of a graded list: the two library functions, on P and on P with its top blocks zeroed
+        for Pz in (P, [blk if k < max(1, len(P) - 1 - ci % 3) else np.zeros_like(blk) for k, blk in enumerate(P)], [np.zeros_like(blk) for blk in P]):
+            d1, d2 = int(O._polynomial_degree(R.glist(Pz))), int(O._polynomial_total_degree(R.glist(Pz), psi))
+            batch.add("gdeg | %s" % g_txt(Pz), "gdeg %d %d" % (d1, d2), {"op": "gdeg", "p": g_txt(Pz)})
+            ctx.case(("gdeg", g_txt(Pz)), kind="degree")
+            nz = [k for k, blk in enumerate(Pz) if np.any(blk)]
+            want_d = max(nz) if nz else -1
+            if d1 != want_d or d2 != want_d:
+                ctx.violation("degree:exact", "_polynomial_degree / _polynomial_total_degree return %d / %d for a polynomial of degree %d" % (d1, d2, want_d),
+                              {"op": "degree", "p": g_txt(Pz), "observed": [d1, d2], "expected": want_d})
         if md + 1 <= len(clmo) - 1:
             ri, imax = O._polynomial_integrate(R.glist(P), var, md, psi, clmo, psi, clmo, enc)
             ri = blocks_of(ri)
